@@ -499,11 +499,15 @@ func (in *Interp) lock(g *goroutine, p *value, write bool) {
 	l := in.lockOf(p)
 	in.preemptPoint(g)
 	if write {
-		in.block(g, fmt.Sprintf("Lock(mutex %d)", l.id), func() bool { return l.writer == nil && len(l.readers) == 0 })
+		if !(l.writer == nil && len(l.readers) == 0) {
+			in.block(g, fmt.Sprintf("Lock(mutex %d)", l.id), func() bool { return l.writer == nil && len(l.readers) == 0 })
+		}
 		l.writer = g
 		g.held[l] = "W"
 	} else {
-		in.block(g, fmt.Sprintf("RLock(mutex %d)", l.id), func() bool { return l.writer == nil })
+		if l.writer != nil {
+			in.block(g, fmt.Sprintf("RLock(mutex %d)", l.id), func() bool { return l.writer == nil })
+		}
 		l.readers[g]++
 		g.held[l] = "R"
 	}
